@@ -52,6 +52,11 @@ func c15BasePlan() *Plan {
 				{Name: "x", Type: "address", Column: "c_x", Filter: &model.Filter{Op: "contains", Ref: &model.Ref{Integration: "ref0", Column: "c_pool"}}},
 				{Name: "y", Type: "uint256", Column: "c_y", Filter: &model.Filter{Op: "gt", Arg: []string{"1"}}},
 			}},
+			// the same shape with the tuple type spelled in canonical form
+			{Name: "pair2", Type: "(address,uint256)", Components: []model.Input{
+				{Name: "x2", Type: "address", Column: "c_x2", Filter: &model.Filter{Op: "contains", Ref: &model.Ref{Integration: "ref0", Column: "c_pool"}}},
+				{Name: "y2", Type: "uint256", Column: "c_y2"},
+			}},
 		}},
 		Block: []model.Field{
 			{Name: "log_addr", Column: "log_addr", Filter: &model.Filter{Op: "contains", Ref: &model.Ref{Integration: "ref0", Column: "c_pool"}}},
@@ -59,7 +64,7 @@ func c15BasePlan() *Plan {
 			{Name: "block_time", Column: "block_time"},
 		},
 		Notification: &model.Notification{Columns: []string{"c_note", "block_num"}}}
-	dep.Table = model.Table{Name: "t_dep", Columns: []model.Col{{Name: "c_who", Type: "bytea"}, {Name: "c_note", Type: "text"}, {Name: "c_x", Type: "bytea"}, {Name: "c_y", Type: "numeric"}, {Name: "log_addr", Type: "bytea"}, {Name: "tx_hash", Type: "bytea"}, {Name: "block_time", Type: "numeric"}},
+	dep.Table = model.Table{Name: "t_dep", Columns: []model.Col{{Name: "c_who", Type: "bytea"}, {Name: "c_note", Type: "text"}, {Name: "c_x", Type: "bytea"}, {Name: "c_y", Type: "numeric"}, {Name: "c_x2", Type: "bytea"}, {Name: "c_y2", Type: "numeric"}, {Name: "log_addr", Type: "bytea"}, {Name: "tx_hash", Type: "bytea"}, {Name: "block_time", Type: "numeric"}},
 		Unique: [][]string{{"ig_name", "src_name", "block_num", "tx_idx", "log_idx", "abi_idx"}}, Index: [][]string{{"c_who"}, {"c_note", "c_x"}}}
 	// a second integration writing the same table with a table definition of
 	// its own: every string of a later definition of a shared table is a
@@ -240,6 +245,41 @@ func c15Init() {
 				um.mut(ig)
 				b, _ := json.Marshal(ig)
 				c15Cases = append(c15Cases, &C15Case{Path: "dashboard", Where: fmt.Sprintf("integrations.%d.%s", ii, um.where), Submit: b})
+			}
+			// a user-supplied table on each nested component's filter_ref, one at a time
+			for k := 0; ; k++ {
+				var t2 any
+				json.Unmarshal(cj, &t2)
+				ig := t2.(map[string]any)["integrations"].([]any)[ii].(map[string]any)
+				ig["name"] = fmt.Sprintf("dash%d", ii)
+				ev, _ := ig["event"].(map[string]any)
+				if ev == nil {
+					break
+				}
+				n, hit := 0, ""
+				var walk func(ins []any, path string)
+				walk = func(ins []any, path string) {
+					for i, in := range ins {
+						m := in.(map[string]any)
+						cs, _ := m["components"].([]any)
+						for j, c := range cs {
+							if fr, ok := c.(map[string]any)["filter_ref"].(map[string]any); ok {
+								if n == k {
+									fr["table"] = c15Marker + "dashnestedreftable"
+									hit = fmt.Sprintf("%s.%d.components.%d", path, i, j)
+								}
+								n++
+							}
+						}
+						walk(cs, fmt.Sprintf("%s.%d.components", path, i))
+					}
+				}
+				walk(ev["inputs"].([]any), "event.inputs")
+				if hit == "" {
+					break
+				}
+				b, _ := json.Marshal(ig)
+				c15Cases = append(c15Cases, &C15Case{Path: "dashboard", Where: fmt.Sprintf("integrations.%d.%s.filter_ref.table(user-supplied)", ii, hit), Submit: b})
 			}
 		}
 	})
